@@ -12,7 +12,8 @@ def main():
     only = sys.argv[2:]
     importlib.import_module(modname)
     smt.prove_bit_lemmas()
-    for qual, cs in REG.contracts.items():
+    tasks = [[t] for k, t in REG.tasks.items()]
+    for cs in tasks:
         for c in cs:
             if only and not any(o in c.name for o in only):
                 continue
